@@ -24,6 +24,12 @@ package grpc
 //	                  parked in pick again and [5,t,..,ns] scripts the retry attempt's pick and
 //	                  NewStream outcome
 //
+//	[11,o]            o==0: the channel's current ccBalancerWrapper.UpdateState(new scripted picker, READY);
+//	                  o!=0: the same call on the balancer wrapper that the last enterIdleMode closed
+//	                  (an LB policy that publishes after the channel went idle): must change nothing
+//	[12]              cc.enterIdleMode() (the real function on the synthetic ClientConn: resolver and
+//	                  balancer wrappers closed and replaced, pickerWrapper.reset(), csMgr IDLE)
+//
 //	obs [n, (token, errflag) x n Done calls made during the op,
 //	     per RPC: state, generation of the picker of its latest Pick call, Pick calls in this
 //	     attempt, attempts, (status code if failed | SubConn index if created | 0)]
@@ -46,6 +52,7 @@ import (
 	"google.golang.org/grpc/balancer"
 	"google.golang.org/grpc/codes"
 	"google.golang.org/grpc/connectivity"
+	"google.golang.org/grpc/internal/channelz"
 	iserviceconfig "google.golang.org/grpc/internal/serviceconfig"
 	"google.golang.org/grpc/internal/transport"
 	"google.golang.org/grpc/peer"
@@ -148,7 +155,15 @@ func vPickerExecIn(cfg []int64, ops [][]int64) ([][]int64, bool, []string) {
 	}
 	nth, nsc := int(cfg[0]), int(cfg[1])
 	pw := newPickerWrapper()
-	cc := &ClientConn{ctx: context.Background(), pickerWrapper: pw}
+	ccCtx, ccCancel := context.WithCancel(context.Background())
+	defer ccCancel()
+	cc := &ClientConn{ctx: ccCtx, pickerWrapper: pw, conns: map[*addrConn]struct{}{}}
+	cc.channelz = channelz.RegisterChannel(nil, "verif-picker")
+	defer channelz.RemoveEntry(cc.channelz.ID)
+	cc.csMgr = newConnectivityStateManager(ccCtx, cc.channelz)
+	cc.resolverWrapper = newCCResolverWrapper(cc)
+	cc.balancerWrapper = newCCBalancerWrapper(cc)
+	var oldCCB *ccBalancerWrapper
 	vPickerRP := &iserviceconfig.RetryPolicy{MaxAttempts: 1 << 30, InitialBackoff: time.Millisecond, MaxBackoff: time.Millisecond,
 		BackoffMultiplier: 1, RetryableStatusCodes: map[codes.Code]bool{codes.Aborted: true}}
 	gen := int64(0)
@@ -205,7 +220,7 @@ func vPickerExecIn(cfg []int64, ops [][]int64) ([][]int64, bool, []string) {
 
 	tagset := map[string]bool{}
 	var tags []string
-	nDone, nRetry, nWake := 0, 0, 0
+	nDone, nRetry, nWake, nStale := 0, 0, 0, 0
 	var out [][]int64
 	for _, op := range ops {
 		if len(op) > 0 {
@@ -272,6 +287,29 @@ func vPickerExecIn(cfg []int64, ops [][]int64) ([][]int64, bool, []string) {
 				}
 				gen++
 				pw.updatePicker(&vPickerP{gen: gen})
+			case op[0] == 11 && len(op) == 2:
+				if closed {
+					break
+				}
+				if op[1] == 0 {
+					for _, th := range ths {
+						if state(th) == 1 {
+							nWake++
+						}
+					}
+					gen++
+					cc.balancerWrapper.UpdateState(balancer.State{ConnectivityState: connectivity.Ready, Picker: &vPickerP{gen: gen}})
+				} else if oldCCB != nil {
+					nStale++
+					oldCCB.UpdateState(balancer.State{ConnectivityState: connectivity.Ready, Picker: &vPickerP{gen: gen + 1000}})
+				}
+			case op[0] == 12 && len(op) == 1:
+				if closed {
+					break
+				}
+				gen++
+				oldCCB = cc.balancerWrapper
+				cc.enterIdleMode()
 			case op[0] == 3 && len(op) == 1:
 				if closed {
 					break
@@ -446,6 +484,9 @@ func vPickerExecIn(cfg []int64, ops [][]int64) ([][]int64, bool, []string) {
 	if nWake > 0 {
 		tagset["woken"] = true
 	}
+	if nStale > 0 {
+		tagset["stale-policy-publish"] = true
+	}
 	for k := range tagset {
 		tags = append(tags, k)
 	}
@@ -486,6 +527,15 @@ func vPickerGen(r *vRand, tier string, idx int) ([]int64, [][]int64) {
 		}
 		return []int64{4, 2}, ops
 	}
+	if idx == 4 {
+		// scripted: idle entry; the discarded LB policy publishes afterwards (with RPCs blocked, with a
+		// new RPC exiting idle, before and after the new policy's first picker); a second idle entry
+		ops = [][]int64{
+			{11, 1}, {6, 0, 1}, {11, 0}, {1, 0, 0}, {5, 0, 0, 0, 0, 0}, {12}, {11, 1}, {1, 1, 1}, {11, 1}, {11, 0}, {5, 0, 3, 0, 1, 0},
+			{11, 1}, {5, 1, 0, 0, 0, 0}, {11, 1}, {12}, {11, 1}, {1, 2, 0}, {11, 1}, {2}, {5, 1, 3, 0, 1, 0}, {5, 2, 3, 0, 0, 0}, {8, 0, 0}, {4}, {11, 1}, {11, 0}, {12},
+		}
+		return []int64{3, 1}, ops
+	}
 	foreign := idx%10 == 5
 	n := 30 + r.Intn(60)
 	started := int64(0)
@@ -503,9 +553,20 @@ func vPickerGen(r *vRand, tier string, idx int) ([]int64, [][]int64) {
 				ops = append(ops, []int64{1, r.I64n(nth + 1), int64(r.Intn(2))})
 			}
 		case c < 24:
-			ops = append(ops, []int64{2})
+			switch k := r.Intn(10); {
+			case k < 6:
+				ops = append(ops, []int64{2})
+			case k < 8:
+				ops = append(ops, []int64{11, 0})
+			default:
+				ops = append(ops, []int64{11, 1})
+			}
 		case c < 27:
-			ops = append(ops, []int64{3})
+			if r.Chance(60) {
+				ops = append(ops, []int64{12}, []int64{11, 1})
+			} else {
+				ops = append(ops, []int64{3})
+			}
 		case c < 28:
 			if r.Chance(25) {
 				ops = append(ops, []int64{4})
